@@ -128,3 +128,48 @@ def random_diagram(rng, maxw=24, maxh=10):
     h = rng.range(1, maxh)
     dens = rng.choice([10, 25, 45, 70, 95])
     return random_grid(rng, w, h, mixed_alphabet(rng), dens)
+
+
+def circle_catalogue():
+    """the 22 circle drawings (dedented rows) and their edge case, read from the regenerated table"""
+    import re
+    from common import LEAN
+    src = open(os.path.join(LEAN, "Svgbob", "Gen", "CircleArt.lean"), encoding="utf-8").read()
+    out = []
+    for m in re.finditer(r'art := "((?:[^"\\]|\\.)*)",\s*edge := \.(\w+)', src):
+        art = m.group(1).encode("utf-8").decode("unicode_escape").encode("latin-1").decode("utf-8")
+        rows = [r.rstrip() for r in art.split("\n")]
+        rows = [r for r in rows if r.strip()]
+        ind = min(len(r) - len(r.lstrip()) for r in rows)
+        rows = [r[ind:] for r in rows]
+        out.append(("\n".join(rows), m.group(2)))
+    return out
+
+
+def attached_shape(rng):
+    """a shape with something attached to it: a catalogue circle with an arrow / line / label touching it, a box with a
+    connector, a rounded box with a tail. These are the drawings whose recognition leaves a remainder."""
+    r = rng.below(4)
+    if r <= 1:
+        cat = circle_catalogue()
+        art, _ = rng.choice(cat[: 8] if rng.chance(2, 3) else cat)
+        rows = art.split("\n")
+        w = max(len(x) for x in rows)
+        mid = len(rows) // 2
+        tail = rng.choice(["---->", "----", "--*", "-- ab", "==>", "--+\n", "<---"])
+        if rng.chance(1, 2):
+            rows[mid] = rows[mid].ljust(w) + tail.replace("\n", "")
+        else:
+            rows = [(" " * len(tail)) + x for x in rows]
+            rows[mid] = tail.replace("\n", "")[::-1].replace(">", "<") + rows[mid][len(tail):]
+        if rng.chance(1, 3):
+            rows.append(" " * (w // 2) + "|")
+            rows.append(" " * (w // 2) + "v")
+        return "\n".join(rows)
+    if r == 2:
+        b = box(rng.range(1, 6), rng.range(1, 3), inner=[rng.choice(["a", "ab", "{t}", "\"\"", "x y"])]).split("\n")
+        b[1] = b[1] + rng.choice(["---->", "--o", "--*--", "<--"])
+        return "\n".join(b)
+    b = box(rng.range(1, 6), rng.range(1, 3), corners=".." + "''").split("\n")
+    b[-1] = b[-1] + rng.choice(["--", "---->", "-."])
+    return "\n".join(b)
